@@ -22,10 +22,16 @@ Judge(o, want) ==
 Known == JsonDeserialize(IOEnv.KNOWN_FINDINGS)
 ActiveK == {Known.findings[j].id : j \in {j \in 1..Len(Known.findings) : Known.findings[j].status = "known"}}
 (* F2: a value with a truthy "Error" member travelled through the execution (the engine signals failures in band);
-   F5: a JSON null was handed from one step to the next (the engine turns it into {}) *)
+   F5: a JSON null was handed from one step to the next (the engine turns it into {});
+   F19/F24: see below *)
 KF(o, want, v) ==
     IF "F2" \in ActiveK /\ "error-member" \in want.trail THEN "F2"
     ELSE IF "F5" \in ActiveK /\ "null-value" \in want.trail THEN "F5"
+    (* protocol findings met by generated programs: a fan-out failure taken by the fan-out's own Catch leaves the
+       siblings running (F19); a retry taken inside a fan-out, or of a fan-out (F24, F22) *)
+    ELSE IF "F19" \in ActiveK /\ "fanout-caught" \in want.trail THEN "F19"
+    ELSE IF "F18" \in ActiveK /\ "fanout-failed-with-siblings" \in want.trail THEN "F18"
+    ELSE IF "F24" \in ActiveK /\ "retry-in-fanout" \in want.trail THEN "F24"
     ELSE ""
 
 Init == i = 1 /\ viol = <<>>
